@@ -158,6 +158,18 @@ func genBase(r *lib.Rng, nconn int, concrete bool, clean bool) *base {
 				o.Post.Ty = pickTy(r, false)
 			}
 		}
+		// the node kind: a lambda written in one of the four paradigms, or a sub graph (only with a
+		// concrete output type: a nil result of a sub graph is the ordinary "no output" failure of
+		// that graph's own run, not a value handed on)
+		switch x := r.Intn(10); {
+		case x < 5:
+		case x < 8:
+			o.Kind = x - 4 // 1 Stream, 2 Collect, 3 Transform
+		default:
+			if !isIface(o.Out) {
+				o.Kind = 4
+			}
+		}
 		b.nodes = append(b.nodes, o)
 		cur = o.Out
 	}
@@ -244,6 +256,9 @@ func genBase(r *lib.Rng, nconn int, concrete bool, clean bool) *base {
 			t = compatible(r, t, concrete)
 		}
 		o.Ty = t
+		if r.Chance(1, 4) {
+			o.Kind = 1 // a stream condition
+		}
 		// what the condition returns: usually the chain successor
 		if len(ends) > 0 {
 			if r.Chance(4, 5) && ends[first] {
@@ -591,8 +606,8 @@ func genPair(i int) *Case {
 	case 0: // START:a -> END:b
 		add(Op{K: "edge", S: 0, E: 1})
 	case 1: // START:a -> n2:(a->a) -> n3:(b->b) -> END:b
-		add(Op{K: "node", Key: 2, In: a, Out: a})
-		add(Op{K: "node", Key: 3, In: b, Out: b})
+		add(Op{K: "node", Key: 2, In: a, Out: a, Kind: (i / pairShapes) % 4})
+		add(Op{K: "node", Key: 3, In: b, Out: b, Kind: (i / pairShapes / 4) % 4})
 		add(Op{K: "edge", S: 0, E: 2})
 		add(Op{K: "edge", S: 2, E: 3})
 		add(Op{K: "edge", S: 3, E: 1})
@@ -603,12 +618,12 @@ func genPair(i int) *Case {
 	case 3: // a branch condition of type b at START:a
 		c.Out = a
 		add(Op{K: "node", Key: 2, In: a, Out: a})
-		add(Op{K: "branch", S: 0, Ty: b, Ends: []int{1, 2}, Choice: []int{1}})
+		add(Op{K: "branch", S: 0, Ty: b, Ends: []int{1, 2}, Choice: []int{1}, Kind: (i / pairShapes) % 2})
 		add(Op{K: "edge", S: 2, E: 1})
 	case 4: // a branch condition of type b types the passthrough node P; then START:a -> P
 		add(Op{K: "pass", Key: 2})
 		add(Op{K: "node", Key: 3, In: b, Out: b})
-		add(Op{K: "branch", S: 2, Ty: b, Ends: []int{1, 3}, Choice: []int{1}})
+		add(Op{K: "branch", S: 2, Ty: b, Ends: []int{1, 3}, Choice: []int{1}, Kind: (i / pairShapes / 2) % 2})
 		add(Op{K: "edge", S: 0, E: 2})
 		add(Op{K: "edge", S: 3, E: 1})
 	case 5: // state handlers declared for b on a node of type a
